@@ -34,6 +34,14 @@ INITIAL = {'a': {'np': 1, 'cmd': 0, 'gt': 0, 'envn': 0, 'st': 1}, 'Bee': {'np': 
            'c': None, 'env': 0}
 
 
+def boom_hook(watcher, arbiter, hook_name, **kw):
+    raise RuntimeError('hook backend is down')
+
+
+HOOK_EDITS = [('hk', 'a'), ('hkstrict', 'a'), ('hk', 'Bee'), ('hkstrict', 'Bee'), ('cmd', 'a'), ('np+', 'a'), ('noop', None),
+              ('toggle', 'a')]
+
+
 def edits(compound=False):
     out = [('noop', None)]
     for s in SLOTS:
@@ -97,6 +105,8 @@ def apply_edit(cfg, ed):
         # imported); applied again it takes the edit back
         c[s]['bad'] = 0 if c[s].get('bad') else int(op[3])
         return c, {s}, 'bad' if c[s]['bad'] else 'unbad'
+    if op == 'hkstrict' and not c[s].get('hk'):
+        return None                     # the flag of a hook that is not configured: no such line to edit
     c[s][op] = 1 - c[s].get(op, 0)
     return c, {s}, op
 
@@ -128,6 +138,9 @@ def render(path, cfg):
             opts['stderr_stream.filename'] = os.path.join(os.path.dirname(path), 'missing-dir', s + '.err')
         elif w.get('bad') == 2:
             opts['hooks.before_start'] = 'no_such_module_vt.hook'
+        elif w.get('hk'):
+            # a before_start hook that raises; its failure is ignored (second field true) or calls the start off
+            opts['hooks.before_start'] = 'props.c12.boom_hook, %s' % ('False' if w.get('hkstrict') else 'True')
         ws.append((s, opts))
         if w['envn']:
             envs.append((s, {'SLOT': 'x-' + s}))
@@ -157,6 +170,9 @@ def shards(tier):
         for s_ in SLOTS:
             for k in range(0, len(E), 6):
                 out.append(('bad', v, s_, k))
+    # hooks whose failure is ignored or not, switched back and forth between versions of the file
+    for i in range(len(HOOK_EDITS)):
+        out.append(('hook', i))
     return out
 
 
@@ -181,6 +197,20 @@ def sequences(shard, tier):
                         yield [first, e2, e3]
         if '&' in first[0]:
             yield [first]
+        return
+    if shard[0] == 'hook':
+        H = HOOK_EDITS
+        hk = lambda sq: any(e[0] in ('hk', 'hkstrict') for e in sq)      # noqa: E731
+        first = H[shard[1]]
+        for e2 in H:
+            if hk([first, e2]):
+                yield [first, e2]
+            for e3 in H:
+                if hk([first, e2, e3]):
+                    yield [first, e2, e3]
+                    if tier != 'quick':
+                        for e4 in H:
+                            yield [first, e2, e3, e4]
         return
     if shard[0] == 'bad':
         _, v, s_, k = shard
@@ -329,7 +359,7 @@ def run_seq(r, seq, judge_all=False):
                     b, a = set(before[s] or []), set(after[s] or [])
                     d = new[s]['np'] - cfg[s]['np']
                     ok = (b <= a and len(a - b) == d) if d > 0 else (a <= b and len(b - a) == -d)
-                    if new[s].get('noauto'):
+                    if new[s].get('noauto') or (new[s].get('hk') and new[s].get('hkstrict')):
                         ok = not a and not b          # a watcher the file keeps stopped (autostart off) has no worker to add
                     others = [x for x in new_sig if x[1] not in (b - a)]
                     r.check('C12.np_only_delta', ok and not others,
